@@ -66,23 +66,67 @@ pub fn parse_out(out: &Value) -> Prog {
     Prog { toks, nodes }
 }
 
-/// Literal relabelling: the k-th decimal literal spelled `1` becomes `k` (k = 1, 2, ...), and the
-/// `IntLit` node around it gets that value.  The result is a program of the same derivation machine
-/// with `IntLits = {1, 2, ...}`; with one spelling for all literals a formatter or parser that
-/// prints / reads a literal from the wrong place would go unnoticed.
+/// Literal relabelling.  The exhaustive configurations of SplGrammar run with `IntLits = {1}` (the literal
+/// alphabet multiplies the number of derivations without adding structure); here the literals of a program
+/// are re-spelled so that (a) no two literals of a program are equal and (b) over the programs of a run every
+/// class of literal lexeme of SplLexer occurs: decimals (also with leading zeros), hexadecimals, plain
+/// character literals, the `\n` escape, quote / tick / backslash, a blank, 2-, 3- and 4-byte characters.
+/// The result is a program of the same derivation machine with a larger `IntLits`; the `IntLit` node gets the
+/// value the lexical grammar gives the lexeme.  Array sizes stay decimal (the grammar's restriction).
+/// Character literals outside Latin-1 get the value `?` (SPL's characters are ASCII; the specification
+/// gives them no value, their spelling must still survive formatting).
+/// With one spelling for all literals a formatter or parser that prints / reads a literal from the wrong
+/// place, or re-spells it, would go unnoticed.
+pub const LITERAL_POOL: &[(&str, &str, &str)] = &[
+    ("Int", "1", "1"), ("Char", "'a'", "97"), ("Hex", "0x1F", "31"), ("Char", "'\\n'", "10"), ("Int", "007", "7"), ("Char", "'\"'", "34"),
+    ("Int", "2", "2"), ("Char", "'''", "39"), ("Hex", "0x0a", "10"), ("Char", "'\\'", "92"), ("Char", "'\u{e4}'", "228"), ("Int", "3", "3"),
+    ("Char", "'\u{20ac}'", "?"), ("Char", "' '", "32"), ("Char", "'\u{1f600}'", "?"), ("Int", "40", "40"),
+];
+
 pub fn distinct_literals(p: &mut Prog) {
-    let mut k = 0usize;
-    for i in 0..p.toks.len() {
-        if p.toks[i].kind == "Int" && p.toks[i].spell == "1" {
-            k += 1;
-            let s = k.to_string();
-            for n in p.nodes.iter_mut() {
-                if n.kind == "IntLit" && n.first == i && n.last == i && n.attr == "1" {
-                    n.attr = s.clone();
-                }
-            }
-            p.toks[i].spell = s;
+    // start of the walk through the pool: a hash of the program, so that the programs of a run spread over it
+    let mut h: u32 = 2166136261;
+    for t in &p.toks {
+        for b in t.spell.bytes() {
+            h = (h ^ b as u32).wrapping_mul(16777619);
         }
+        h = (h ^ 32).wrapping_mul(16777619);
+    }
+    let mut k = 0usize; // decimal counter for array sizes
+    let mut e = (h as usize) % LITERAL_POOL.len(); // pool cursor for expression literals
+    let mut used: Vec<&str> = Vec::new();
+    for i in 0..p.toks.len() {
+        if !(p.toks[i].kind == "Int" && p.toks[i].spell == "1") {
+            continue;
+        }
+        let node = p.nodes.iter().position(|n| n.kind == "IntLit" && n.first == i && n.last == i && n.attr == "1");
+        let in_array_size = node.and_then(|n| p.nodes[n].parent).map(|q| p.nodes[q].kind == "ArrayType").unwrap_or(true);
+        let (kind, spell, value): (String, String, String) = if in_array_size || node.is_none() {
+            k += 1;
+            ("Int".into(), k.to_string(), k.to_string())
+        } else {
+            // next pool entry not used in this program yet (all used: decimals beyond the pool)
+            let mut tries = 0;
+            while used.contains(&LITERAL_POOL[e].1) && tries < LITERAL_POOL.len() {
+                e = (e + 1) % LITERAL_POOL.len();
+                tries += 1;
+            }
+            if tries == LITERAL_POOL.len() {
+                k += 1;
+                let v = (100 + k).to_string();
+                ("Int".into(), v.clone(), v)
+            } else {
+                used.push(LITERAL_POOL[e].1);
+                let x = LITERAL_POOL[e];
+                e = (e + 1) % LITERAL_POOL.len();
+                (x.0.into(), x.1.into(), x.2.into())
+            }
+        };
+        if let Some(n) = node {
+            p.nodes[n].attr = value;
+        }
+        p.toks[i].kind = kind;
+        p.toks[i].spell = spell;
     }
 }
 
